@@ -23,7 +23,8 @@ ASSUMPTIONS = [
     'reference interpreter as in C01',
 ]
 N = {'quick': 600, 'thorough': 4000}
-SHAPES = ['direct', 'map_above', 'rev_slice', 'batch2', 'chain', 'items_below']
+SHAPES = ['direct', 'map_above', 'rev_slice', 'batch2', 'chain', 'items_below', 'copied', 'copied_frozen', 'warn',
+          'list_zip_warn']
 RAISED = ['FilterException', 'VErrA', 'VErrB', 'VErrC']
 SPECS = [None, 'VErrA', ['VErrA', 'VErrC'], 'Exception']
 
@@ -53,7 +54,18 @@ def make(kind, n, fail, shape, spec):
         if kind != 'dict':
             return None
         node = {'op': 'items', 'in': node}
-    return {'op': 'catch', 'exc': spec, 'in': node}
+    out = {'op': 'catch', 'exc': spec, 'in': node}
+    if shape == 'copied':
+        out = {'op': 'copy', 'freeze': False, 'in': out}
+    elif shape == 'copied_frozen':
+        out = {'op': 'copy', 'freeze': True, 'in': out}
+    elif shape == 'warn':
+        out['warn'] = True
+    elif shape == 'list_zip_warn':
+        out = {'op': 'catch', 'exc': spec, 'warn': True,
+               'in': {'op': 'zip', 'how': 'method', 'ins': [node, {'op': 'list', 'id': 5, 'n': n, 'mode': 'pickle',
+                                                                     'dup': False}]}}
+    return out
 
 
 def check_program(node):
